@@ -262,7 +262,7 @@ def simulate_behaviours(module: str, cfg: str, *, num: int, depth: int, seed: in
 
 # ---------------------------------------------------------------- dot dumps
 _re_node = re.compile(r'^(-?\d+) \[label="((?:[^"\\]|\\.)*)"(.*)\];?$')
-_re_edge = re.compile(r'^(-?\d+) -> (-?\d+) \[label="(.*?)"')
+_re_edge = re.compile(r'^(-?\d+) -> (-?\d+) \[label="((?:[^"\\]|\\.)*)"')
 
 
 def parse_dot(path: str) -> Tuple[Dict[str, dict], List[Tuple[str, str, str]], List[str]]:
@@ -274,7 +274,7 @@ def parse_dot(path: str) -> Tuple[Dict[str, dict], List[Tuple[str, str, str]], L
         ln = ln.rstrip("\n")
         m = _re_edge.match(ln)
         if m:
-            edges.append((m.group(1), m.group(2), m.group(3)))
+            edges.append((m.group(1), m.group(2), m.group(3).replace('\\"', '"')))
             continue
         m = _re_node.match(ln)
         if m:
